@@ -14,10 +14,10 @@ def tla_set(names):
 
 LATTICE = {
     "quick": dict(NObj=3, A2="{97, 98}", L2=2, A1="{97, 10, 1, 127, 128, 255, 92}", L1=2, AC="{97, 65, 193}", LC=2,
-                  AN="{32, 45, 43, 49, 57, 97}", LN=3, PMax=4, BitPos="{0, 7, 63}", GA="{97, 98}", GL=2,
+                  AN="{32, 45, 43, 49, 57, 97}", LN=3, WL=2, PMax=4, BitPos="{0, 7, 63}", GA="{97, 98}", GL=2,
                   HG=tla_set(["SIZE_MAX", "SIZE_MAX-1", "SIZE_MAX-2", "SIZE_MAX/2+1", "2^32", "2^31"]), GH=tla_set(["SIZE_MAX", "SIZE_MAX-1"])),
     "thorough": dict(NObj=3, A2="{97, 98}", L2=3, A1="{97, 10, 1, 127, 128, 255, 92}", L1=3, AC="{97, 65, 193}", LC=3,
-                     AN="{32, 45, 43, 49, 57, 97}", LN=4, PMax=5, BitPos="{0, 7, 8, 31, 63}", GA="{97, 98}", GL=2,
+                     AN="{32, 45, 43, 49, 57, 97}", LN=4, WL=3, PMax=5, BitPos="{0, 7, 8, 31, 63}", GA="{97, 98}", GL=2,
                      HG=tla_set(HUGE), GH=tla_set(["SIZE_MAX", "SIZE_MAX-2", "2^32"])),
 }
 CONST = """CONSTANTS
@@ -30,6 +30,7 @@ CONST = """CONSTANTS
   LC = %(LC)s
   AN = %(AN)s
   LN = %(LN)s
+  WL = %(WL)s
   PMax = %(PMax)s
   HG = %(HG)s
   GH = %(GH)s
@@ -87,6 +88,26 @@ def rnd_string(rng, maxlen):
     if r < 0.6:
         return rbytes(rng, n, [97, 10, 13, 9, 1, 27, 127, 128, 200, 255, 92, 34])
     return rbytes(rng, n)
+
+
+SPACES = [9, 10, 11, 12, 13, 32]              # isspace() in the "C" locale (SimpleStr.tla SpaceBytes)
+NOT_SPACES = [1, 8, 14, 27, 28, 31, 127, 128, 133, 160, 255, 0x30 + 0x80, 0x20 + 0x80, 0x0B + 0x80]   # neighbours and look-alikes
+
+
+def rnd_number_text(rng):
+    """What AtoI / AtoU may be given: a run of white space drawn from the whole class (now and then interrupted by a byte
+    that only looks like white space), signs, digits (the run stays <= 9 digits: SimpleStr.tla PreN), then any bytes."""
+    s = [rng.choice(SPACES) for _ in range(rng.choice([0, 0, 1, 1, 2, 3, 5]))]
+    if rng.random() < 0.15:
+        s.insert(rng.randint(0, len(s)), rng.choice(NOT_SPACES) if rng.random() < 0.6 else rng.randrange(1, 256))
+    s += [ord(c) for c in rng.choice(["", "", "", "-", "+", "--", "+-", "- "])]
+    s += [rng.randrange(48, 58) for _ in range(rng.randint(0, 6))]
+    r = rng.random()
+    if r < 0.5:
+        s += rbytes(rng, rng.randint(1, 2))                               # any byte after the number: digits extend it (<= 9)
+    elif r < 0.7:
+        s += [rng.choice(SPACES + NOT_SPACES + [45, 43, 46, 120, 101])] + [rng.randrange(48, 58)]
+    return s
 
 
 def F(fn, s1=(), s2=(), s3=(), n1=0, n2=0, n3=0):
@@ -159,9 +180,7 @@ def random_pure(rng, n):
             else:
                 rows.append(F(fn, a, n1=ch, n2=ch2))
         elif r < 0.78:
-            digits = "".join(rng.choice("0123456789") for _ in range(rng.randint(0, 9)))
-            s = rng.choice(["", " ", "  ", "\t", "\n \r"]) + rng.choice(["", "", "-", "+"]) + digits + rng.choice(["", "x", " 1", "-", "."])
-            rows.append(F(rng.choice(["atoi", "atou"]), [ord(c) for c in s]))
+            rows.append(F(rng.choice(["atoi", "atou"]), rnd_number_text(rng)))
         elif r < 0.86:
             fn = rng.choice(["dec", "udec", "hex", "brackets", "ordinal", "hexschar", "bool", "char", "tolower"])
             if fn == "dec":
@@ -303,6 +322,20 @@ def run(ctx):
     for r_ in rows:
         by_fn[r_["fn"]] = by_fn.get(r_["fn"], 0) + 1
     ctx.notes["table_rows"] = len(rows)
+    # the C-library-like primitives classify single bytes: the table must take every byte value through them, and the numeric
+    # parsers must see every white-space byte in front of a number (a generator that lost them would make the check blind)
+    first = {}
+    for r_ in rows:
+        if r_["fn"] in ("atoi", "atou") and r_["s1"]:
+            first.setdefault(r_["fn"], set()).add(r_["s1"][0])
+    single = {fn: {r_["s1"][0] for r_ in rows if r_["fn"] == fn and len(r_["s1"]) == 1} for fn in ("lower", "printable", "strcmp", "eqnocase", "strlen")}
+    lows = {r_["n1"] for r_ in rows if r_["fn"] == "tolower"}
+    white = {tuple(r_["s1"][:2]) for r_ in rows if r_["fn"] in ("atoi", "atou") and len(r_["s1"]) > 2 and all(b in SPACES for b in r_["s1"][:2])}
+    if any(first.get(fn, set()) != set(range(1, 256)) for fn in ("atoi", "atou")) or any(v != set(range(1, 256)) for v in single.values()) \
+            or lows != set(range(256)) or len(white) != len(SPACES) ** 2:
+        raise Infra("the table does not take every byte value through AtoI/AtoU/ToLower/lowerCase/printable/StrCmp")
+    ctx.notes["byte_values_per_primitive"] = {"atoi/atou first byte": 255, "tolower": 256, "lower/printable/strcmp/eqnocase/strlen of one byte": 255,
+                                              "white-space pairs in front of a number": len(white)}
     ctx.notes["table_rows_by_function"] = by_fn
     ctx.rng.shuffle(rows)
     # the empty string repeated a symbolic number of times: a loop over the count never ends, so these calls run one per
@@ -343,14 +376,16 @@ def run(ctx):
     go("random_objects", hist)
     return ctx.finish(
         rule="executions = (a) chunks of <= 200 pure calls from the table written by TLC (Gen_SimpleStr: every operation over small alphabets, all "
-             "positions 0..PMax) and from a seeded random driver (all byte values, strings up to 300 bytes), (b) object behaviours generated by TLC "
+             "positions 0..PMax; every byte value 1..255 (memory blocks 0..255) through every C-library-like primitive and every operation that "
+             "classifies bytes; AtoI/AtoU on white-space runs from the whole isspace() class x sign x digits x trailing bytes) and from a seeded random driver (all byte values, strings up to 300 bytes), (b) object behaviours generated by TLC "
              "(exhaustive to depth 2, simulated to depth 14) and seeded random histories on a pool of 3 objects; every call runs on the real SimpleString "
              "under ASan+UBSan with a recording string allocator; results, pool contents and allocator events are validated by Trace_SimpleStr; "
              "distinct non-trivial = distinct logged calls that caused allocator events",
         distinct_nontrivial=len(nontrivial), exhaustive=False,
         assumptions=["count = positions at which the pattern occurs (overlapping counted, '' once per byte); split keeps the delimiter at the end of each piece; "
                      "replace = non-overlapping left-to-right; printable() of bytes >= 0x80: kept or \\xHH both accepted",
-                     "StrNCpy: bytes after the copied terminator may be untouched or zero; AtoI/AtoU on numbers of <= 9 digits",
+                     "StrNCpy: bytes after the copied terminator may be untouched or zero; AtoI/AtoU on numbers of <= 9 digits; white space = the six isspace() bytes of the C locale "
+                     "(0x09..0x0D, 0x20), AtoU takes no sign (as the source says)",
                      "numeric formatters on values that fit 32-bit TLC integers; %s formats only for formatted construction",
                      "sizes beyond every string (symbolic, HugeNames) are passed to subString(2), findFrom, StrNCmp, copyToBuffer (real buffer = string + terminator), "
                      "the repeat constructor (empty string only) and StringFromMaskedBits; not to StrNCpy / MemCmp / at(), whose contract makes n bytes accessible",
